@@ -259,6 +259,12 @@ structure Codec (σ : Type) where
   /-- Decoder of one LZMA chunk: `dec props state dict payload usize` -/
   dec : Props → σ → Bytes → Bytes → Nat → Option (Bytes × σ)
 
+/-- The coder states that can occur: a freshly reset coder (valid lc/lp/pb), and what chunks leave behind. -/
+inductive Codec.Reach {σ : Type} (C : Codec σ) : Props → σ → Prop
+  | reset (p : Props) (h : p.valid = true) : Codec.Reach C p (C.reset p)
+  | step {p : Props} {s : σ} {fl : Bool} {d a : Bytes} {ch : Choice} {s' : σ} :
+      Codec.Reach C p s → C.choose fl p s d a = some (ch, s') → Codec.Reach C p s'
+
 /-- The contract between the abstract encoder and decoder. -/
 structure Codec.Sound {σ : Type} (C : Codec σ) : Prop where
   /-- sizes fit the chunk header fields (asserts of lzma2_header_lzma / lzma2_header_uncompressed) -/
@@ -268,8 +274,9 @@ structure Codec.Sound {σ : Type} (C : Codec σ) : Prop where
         (ch.isLzma = false → ch.n ≤ LZMA2_CHUNK_MAX)
   /-- under LZMA_RUN the encoder never catches up with the input (keep_size_after bytes stay unencoded) -/
   lag : ∀ p s d a ch s', C.choose false p s d a = some (ch, s') → ch.n < a.length
-  /-- when flushing, unencoded input always yields a chunk (lzma_lzma_encode runs until read_pos == read_limit) -/
-  live : ∀ p s d a, a ≠ [] → C.choose true p s d a ≠ none
+  /-- when flushing, unencoded input always yields a chunk (lzma_lzma_encode runs until read_pos == read_limit);
+      asked only of coder states that can occur -/
+  live : ∀ p s d a, C.Reach p s → a ≠ [] → C.choose true p s d a ≠ none
   /-- the decoder inverts the encoder -/
   inv : ∀ fl p s d a ch s', C.choose fl p s d a = some (ch, s') → ch.isLzma = true →
         C.dec p s d ch.payload ch.n = some (a.take ch.n, s')
